@@ -538,9 +538,10 @@ def _pre_k2_glob(d: int, a: int, b: int, w: int, q: int, ab: int, g: int) -> boo
     for v, dim in zip((d, a, b, w, q, ab, g), _glob_dims(c)):
         if not (0 <= v < len(dim)):
             return False
-    if ob.excluded(REGION_ADJACENT_STARS):
+    if ob.excluded(REGION_ADJACENT_STARS) or c.get('no_adjacent_stars'):
+        # `no_adjacent_stars`: the lines with `**` inside a path component are the business of K2:glob:adjacent-stars
         _d, av, bv, _w, qv, _ab, _g = _glob_args(c, d, a, b, w, q, ab, g)
-        if qv == 0 and G.LETTER[av].endswith('*') and G.DIGIT[bv].startswith('*'):
+        if G.LETTER[av].endswith('*') and G.DIGIT[bv].startswith('*') and (qv == 0 or c.get('no_adjacent_stars')):
             return False
     return True
 
@@ -601,9 +602,10 @@ def _glob_obligations(tier: str) -> List[Ob]:
     if tier == 'quick':
         for ws in ([0, 1], [2, 3]):
             obs.append(_glob_ob('combinations:%d%d' % tuple(ws), 2 * T,
-                                'every combination of constructs: %s; unquoted, relative, %s; both orders of glob matches'
+                                'every combination of constructs: %s - except C1 = `*` with C2 = `*`; unquoted, relative, '
+                                '%s; both orders of glob matches'
                                 % (GLOB_LINE_TEXT, 'standing in each of: ' + '; '.join(G.WHERE_TEXT[w] for w in ws)),
-                                ws=ws, qs=[0], abs=[0]))
+                                ws=ws, qs=[0], abs=[0], no_adjacent_stars=True))
         obs.append(_glob_ob('one-construct', T,
                             '%s with a wildcard construct in at most one of the three positions; %s; %s; %s; both orders '
                             'of glob matches' % (GLOB_LINE_TEXT, where_all, quote_all, abs_all), pats=_one_construct()))
@@ -611,17 +613,26 @@ def _glob_obligations(tier: str) -> List[Ob]:
                             '%s with a wildcard construct in at most one of the three positions; %s; unquoted; %s'
                             % (GLOB_LINE_TEXT, where_all, abs_all), junit=True, pats=_one_construct(), qs=[0], ng=1))
         obs.append(_glob_ob('absolute', T,
-                            'every combination of constructs: %s; unquoted, ABSOLUTE; %s'
-                            % (GLOB_LINE_TEXT, '; '.join(G.WHERE_TEXT[1:3])), ws=[1, 2], qs=[0], abs=[1], ng=1))
+                            'every combination of constructs: %s - except C1 = `*` with C2 = `*`; unquoted, ABSOLUTE; %s'
+                            % (GLOB_LINE_TEXT, '; '.join(G.WHERE_TEXT[1:3])), ws=[1, 2], qs=[0], abs=[1], ng=1,
+                            no_adjacent_stars=True))
     else:
         for w in range(len(G.WHERE)):
             for ab in (0, 1):
                 for junit in (False, True):
                     obs.append(_glob_ob('combinations:%d:%s%s' % (w, 'abs' if ab else 'rel', ':junit' if junit else ''),
                                         3 * T,
-                                        'every combination of constructs: %s; %s; %s; %s; both orders of glob matches'
+                                        'every combination of constructs: %s - except C1 = `*` with C2 = `*`; %s; %s; %s; '
+                                        'both orders of glob matches'
                                         % (GLOB_LINE_TEXT, quote_all, 'absolute' if ab else 'relative', G.WHERE_TEXT[w]),
-                                        junit=junit, ws=[w], abs=[ab]))
+                                        junit=junit, ws=[w], abs=[ab], no_adjacent_stars=True))
+    # two adjacent `*` inside a path component (`**.case`, `t**.case` ...): by the documented syntax the same as one `*`
+    a_star, b_star = G.LETTER.index('*'), G.DIGIT.index('*')
+    for junit in ((False,) if tier == 'quick' else (False, True)):
+        obs.append(_glob_ob('adjacent-stars' + (':junit' if junit else ''), T,
+                            'C1 in (`t`, `*`) and C2 in (`1`, `*`) - `t1`, `t*`, `*1` and two adjacent stars `**` -, DIR-PART '
+                            'in %r; %s; %s; %s' % (tuple(G.DIRP[i] for i in (0, 1, 8)), where_all, quote_all, abs_all),
+                            junit=junit, ds=[0, 1, 8], bs=[0, b_star], ng=1, **{'as': [0, a_star]}))
     obs.append(_glob_ob('seeded-oracle-error', T,
                         'seeded oracle error: the oracle takes a quoted name for a pattern', oracle_bug=True,
                         ws=[0], qs=[1], abs=[0], ng=1, pats=_one_construct()))
@@ -899,6 +910,26 @@ def selftest(tier) -> int:
                 raise AssertionError('reference glob differs from pathlib for %r in %r: %r vs %r' % (pat, base, ref, real_rel))
             n += 1
     scratch.remove(work)
+    # ... and on the fixture and the patterns of the glob family (but `**` inside a path component, which pathlib rejects)
+    _specs, gtree, _root = G.scenario(0, '')
+    work = scratch.new_dir('selftest')
+    gtree.write(work)
+    for base in ('', 'sub'):
+        for d in range(len(G.DIRP)):
+            for a in range(len(G.LETTER)):
+                for b in range(len(G.DIGIT)):
+                    for ext in ('.case', '.suite'):
+                        pat = G.pattern(d, a, b, ext)
+                        if '**' in pat.replace('**/', ''):
+                            continue
+                        real = sorted(pathlib.Path(work, base).glob(pat))
+                        real_rel = [os.path.relpath(str(p), work).replace(os.sep, '/') for p in real]
+                        ref = sorted(L._glob(gtree, base, pat), key=lambda p: tuple(p.split('/')))
+                        if real_rel != ref:
+                            raise AssertionError('reference glob differs from pathlib for %r in %r: %r vs %r' % (
+                                pat, base, ref, real_rel))
+                        n += 1
+    scratch.remove(work)
     # path hash stub: equal paths hash equal, dict look-up by an equal path works
     L.install_clock()
     a, b = pathlib.Path('/x/y/../z.case'), pathlib.Path('/x', 'y', '..', 'z.case')
@@ -946,6 +977,6 @@ OUTSIDE = [
     'timing fields, time stamps, host name; XML formatting beyond the counted attributes and the testcase / failure / error elements',
     'the exit code of a valid run and the stdout of an invalid run under the JUnit reporter (not part of the statement)',
     'suite hierarchies outside the generated family: more than 4 suite files, depth > 3, reference lines outside the '
-    'catalogues SL / CL, symbolic links, permissions',
+    'catalogues SL / CL and the generated glob family (harness/_C16_glob.py), symbolic links, permissions',
     'marker files written by the cases: executions are counted at the case processor (a recording wrapper in K3)',
 ]
